@@ -29,7 +29,7 @@ func TestC27Debug(t *testing.T) {
 	for _, e := range r.trace {
 		t.Logf("idx=%d dir=%d size=%d %s", e.Idx, e.Dir, e.Size, e.Act)
 	}
-	t.Logf("datagrams=%d applied=%d minSlack=%d blocked=%v validated=%v dialOK=%v void=%d retry=%v", r.ndgrams, r.applied, r.minSlack, r.blocked, r.validated, r.dialOK, r.voidBytes, r.retry)
+	t.Logf("datagrams=%d applied=%d minSlack=%d blocked=%v validated=%v dialOK=%v void=%d retry=%v retok=%d tokenback=%v", r.ndgrams, r.applied, r.minSlack, r.blocked, r.validated, r.dialOK, r.voidBytes, r.retry, r.retok, r.tokValid)
 	for _, f := range r.fails {
 		t.Logf("FAIL %s: %s", f.sig, f.what)
 	}
